@@ -13,6 +13,17 @@ import time
 VERIF = os.path.dirname(os.path.dirname(os.path.abspath(__file__)))
 REPO = os.environ.get('VERIF_REPO', '/repo')
 COQ = os.path.join(VERIF, 'coq')
+if os.path.realpath(REPO) != '/repo':
+    # a check against a scratch copy of the repository works on a private copy of the Coq tree, so that the
+    # generated tables of the mutated tree never disturb /verif/coq
+    COQ = '/tmp/verif_coq_' + hashlib.blake2b(os.path.realpath(REPO).encode(), digest_size=5).hexdigest()
+    subprocess.run(['rsync', '-a', '--delete', '--exclude', 'cases/', os.path.join(VERIF, 'coq') + '/', COQ + '/'], check=True)
+    for _f in ('Makefile', 'Makefile.conf', '.Makefile.d'):
+        try:
+            os.remove(os.path.join(COQ, _f))
+        except OSError:
+            pass
+os.environ['VERIF_COQ'] = COQ
 sys.path.insert(0, os.path.join(VERIF, 'tools'))
 sys.path.insert(0, os.path.join(VERIF, 'harness'))
 
@@ -25,7 +36,7 @@ KERNEL_TB = ['Coq 8.16.1 kernel (coqc, full .vo build, vm_compute used for finit
 
 class Lock:
     def __init__(self, name='coq'):
-        self.path = os.path.join(VERIF, f'.{name}.lock')
+        self.path = os.path.join(COQ, f'.{name}.lock')
 
     def __enter__(self):
         self.f = open(self.path, 'w')
